@@ -10,7 +10,7 @@ JOBS = [
     (CH + ".send_continue", "IO"), (CH + ".send_continue", "W"),
     (CH + ".handle_write", "IO"),
     (CH + ".readable", "IO"), (CH + ".writable", "IO"),
-    (CH + ".service", "W"), (CH + ".received", "IO"),
+    (CH + ".service", "W"), (CH + ".received", "IO"), (CH + ".__init__", "IO"),
 ]
 
 
